@@ -27,9 +27,9 @@ TEXT = {
          'DESIGN 3.4, 4/C14'),
  'C07': ('Seeded search over (z,x,y) mesh factorisations, padded layouts, knobs and workloads; sharded execution (real XLA virtual-device mesh, and a deterministic SPMD simulator that owns device scheduling and message delivery and injects delay/reorder/stall/duplicate faults) must refine the unsharded execution after removing padding, be finite incl. padding, schedule independent, and reject only documented configurations.',
          'DESIGN 3.1, 3.2, 4/C07'),
- 'C11': ('Seeded simulated model runs (equation class x integrator x filter stack x grid x levels) with operational events (checkpoint, crash/restart from durable bytes, reshard, recompile, re-split, reconfigure); structural invariants (exact zeros of clipped/masked/padding entries, (0,0) means, uniform tracer, clock = n*dt, clock untouched by filters/solve) are monitored after every operation in both worlds.',
+ 'C11': ('Seeded simulated model runs (equation class x integrator x filter stack x grid x levels) with operational events (checkpoint, crash/restart from durable bytes, re-layout to padded modal layouts, recompile, reconfigure, filter-only and implicit-solve-only operations; user-supplied Butcher tableaux; histories up to 160 steps in the thorough tier); structural invariants (exact zeros of clipped/masked/padding entries, (0,0) means, uniform tracer, clock = n*dt, clock untouched by filters/solve) are monitored after every operation in both worlds.',
          'DESIGN 3.3, 4/C11'),
- 'C19': ('Seeded simulated model runs with a durable/volatile split: CHECKPOINT through data_to_xarray (+ netCDF bytes on fsspec memory://), CRASH_RESTART that rebuilds coordinate system and state from durable bytes only, up/down-sampling restarts and pytree codec compositions; restored state must be bit-identical, dimension names as documented, discretisation reproduced, and the continued run must stay on the never-restarted reference world.',
+ 'C19': ('Seeded simulated model runs with a durable/volatile split: CHECKPOINT through data_to_xarray (+ netCDF bytes on fsspec memory://), CRASH_RESTART that rebuilds coordinate system and state from durable bytes only, up/down-sampling restarts and pytree codec compositions; restored state must be bit-identical (float64 and a float32 leg), dimension names and coordinate labels as documented / supplied, discretisation reproduced for sigma / layer / pressure verticals, codec compositions the identity, and the continued run must stay on the never-restarted reference world.',
          'DESIGN 3.3, 4/C19'),
 }
 NOTE = {
